@@ -3,7 +3,7 @@
 import json, os, shutil, sys, glob
 wid, name, prop, caught = sys.argv[1:5]
 needs = " ".join(sys.argv[5:])
-src = "/tmp/seed-%s/_seed" % wid
+src = "/tmp/%s%s/_seed" % (os.environ.get("SEEDPFX","seed-"), wid)
 dst = "/verif/seeded/%s" % name
 os.makedirs(dst, exist_ok=True)
 for f in glob.glob(src + "/*"):
